@@ -329,7 +329,7 @@ C11_FactoryBuildsEachOnceWithCfg(t, rq, c, lg) ==
 
 \* "fail with the first init error":
 \*  (1) by the reference timing InitRef (and_then drives both inner factories together): the factory fails iff the
-\*      reference composition fails, and with the error of the EARLIEST failing round (same-round ties: any of them) -
+\*      reference composition fails, and with the error of the EARLIEST failing round (same-round ties: the first stage's) -
 \*      also when the implementation never polled the future that fails first;
 \*  (2) an init error that an inner future (or the readiness wait of apply_cfg_factory) was SEEN to return is
 \*      reported in that very round (mapped by the map_init_err's above it), and an error is reported only then
